@@ -6,6 +6,7 @@ import (
 	"bufio"
 	"fmt"
 	"io"
+	"os"
 	"os/exec"
 	"strconv"
 	"strings"
@@ -39,6 +40,9 @@ type Solver struct {
 	dead    bool
 	pushed  bool
 	paths   int
+	asserted []*Term // permanent assertions since the last Reset
+	OneShots int
+	OneShotSolved int
 }
 
 func solverArgv(kind string, timeoutMs int) []string {
@@ -101,6 +105,7 @@ func (s *Solver) Close() {
 
 // Reset clears all assertions and definitions.
 func (s *Solver) Reset() {
+	s.asserted = s.asserted[:0]
 	s.ep++
 	s.paths++
 	if s.kind == "cvc5" || s.paths%2000 == 0 {
@@ -117,6 +122,7 @@ func (s *Solver) Reset() {
 
 // Assert adds t as a permanent assertion (until Reset).
 func (s *Solver) Assert(t *Term) {
+	s.asserted = append(s.asserted, t)
 	var sb strings.Builder
 	r := s.tc.Emit(&sb, t, s.ep)
 	fmt.Fprintf(&sb, "(assert %s)\n", r)
@@ -173,8 +179,19 @@ func (s *Solver) Check(extra []*Term, wantModel bool) (SatResult, Model, error) 
 		res = Unsat
 		s.NUnsat++
 	case "unknown", "timeout":
-		res = Unknown
-		s.NUnk++
+		// the incremental core gave up: retry one-shot in fresh processes
+		s.send("(pop 1)\n")
+		r2, m2 := s.oneShot(extra, wantModel)
+		switch r2 {
+		case Sat:
+			s.NSat++
+		case Unsat:
+			s.NUnsat++
+		default:
+			s.NUnk++
+		}
+		s.Time += time.Since(t0)
+		return r2, m2, nil
 	default:
 		// error line: inconclusive. Drain nothing more; the process state is
 		// suspect, so mark dead.
@@ -300,4 +317,116 @@ func parseValues(txt string, m Model) {
 		}
 		m[name] = v
 	}
+}
+
+// emitFresh prints the definitions of the given terms without touching the
+// incremental emission marks.
+func emitFresh(sb *strings.Builder, roots []*Term) []string {
+	seen := map[int]bool{}
+	var visit func(t *Term)
+	visit = func(t *Term) {
+		if t == nil || t.op == OpConst || seen[t.id] {
+			return
+		}
+		seen[t.id] = true
+		visit(t.a)
+		visit(t.b)
+		visit(t.c)
+		if t.op == OpVar {
+			fmt.Fprintf(sb, "(declare-const |%s| %s)\n", t.name, sortStr(t.w))
+			return
+		}
+		fmt.Fprintf(sb, "(define-fun t%d () %s ", t.id, sortStr(t.w))
+		switch t.op {
+		case OpExtract:
+			fmt.Fprintf(sb, "((_ extract %d %d) %s)", t.val>>8, t.val&0xff, t.a.ref())
+		case OpZExt:
+			fmt.Fprintf(sb, "((_ zero_extend %d) %s)", t.w-t.a.w, t.a.ref())
+		case OpSExt:
+			fmt.Fprintf(sb, "((_ sign_extend %d) %s)", t.w-t.a.w, t.a.ref())
+		default:
+			sb.WriteString("(" + opNames[t.op])
+			for _, k := range []*Term{t.a, t.b, t.c} {
+				if k != nil {
+					sb.WriteString(" " + k.ref())
+				}
+			}
+			sb.WriteString(")")
+		}
+		sb.WriteString(")\n")
+	}
+	refs := make([]string, len(roots))
+	for k, r := range roots {
+		visit(r)
+		refs[k] = r.ref()
+	}
+	return refs
+}
+
+var oneShotSolvers = [][]string{
+	{"z3-new", "-smt2", "-in", "-T:120"},
+	{"cvc5", "--lang=smt2", "--produce-models", "--solve-bv-as-int=sum", "--tlimit=120000"},
+	{"z3", "-smt2", "-in", "-T:120"},
+}
+
+// oneShot decides asserted+extra in a fresh solver process (tactic-based
+// solving is much stronger than the incremental core on arithmetic queries).
+func (s *Solver) oneShot(extra []*Term, wantModel bool) (SatResult, Model) {
+	s.OneShots++
+	var sb strings.Builder
+	roots := append(append([]*Term{}, s.asserted...), extra...)
+	refs := emitFresh(&sb, roots)
+	for _, r := range refs {
+		fmt.Fprintf(&sb, "(assert %s)\n", r)
+	}
+	sb.WriteString("(check-sat)\n")
+	var vars []*Term
+	vs := map[string]uint8{}
+	seen := map[int]bool{}
+	for _, r := range roots {
+		r.Vars(vs, seen)
+	}
+	for _, v := range s.tc.vars {
+		if _, ok := vs[v.name]; ok {
+			vars = append(vars, v)
+		}
+	}
+	if wantModel && len(vars) > 0 {
+		sb.WriteString("(get-value (")
+		for _, v := range vars {
+			sb.WriteString(v.ref() + " ")
+		}
+		sb.WriteString("))\n")
+	}
+	body := sb.String()
+	for _, argv := range oneShotSolvers {
+		pre := "(set-option :produce-models true)\n"
+		if argv[0] == "cvc5" {
+			pre = "(set-logic QF_BV)\n"
+		}
+		cmd := exec.Command(argv[0], argv[1:]...)
+		cmd.Stdin = strings.NewReader(pre + body)
+		out, _ := cmd.CombinedOutput()
+		txt := strings.TrimSpace(string(out))
+		if d := os.Getenv("SYMGO_ONESHOT_DUMP"); d != "" {
+			os.WriteFile(fmt.Sprintf("%s/oneshot-%d-%s.smt2", d, s.OneShots, argv[0]), []byte(pre+body), 0o644)
+			os.WriteFile(fmt.Sprintf("%s/oneshot-%d-%s.out", d, s.OneShots, argv[0]), out, 0o644)
+		}
+		if strings.Contains(txt, "(error") && !strings.HasPrefix(txt, "unsat") {
+			continue
+		}
+		switch {
+		case strings.HasPrefix(txt, "unsat"):
+			s.OneShotSolved++
+			return Unsat, nil
+		case strings.HasPrefix(txt, "sat"):
+			s.OneShotSolved++
+			m := Model{}
+			if k := strings.Index(txt, "("); k >= 0 {
+				parseValues(txt[k:], m)
+			}
+			return Sat, m
+		}
+	}
+	return Unknown, nil
 }
